@@ -230,7 +230,7 @@ impl From<(&Node, &Finished)> for NodeTy {
             Node::Dict { elements } => NodeTy::Dict {
                 elements: elements
                     .iter()
-                    .map(|(from, to)| (ASTTy::from(from), ASTTy::from(to)))
+                    .map(|(from, to)| (ASTTy::from((from, finished)), ASTTy::from((to, finished))))
                     .collect(),
             },
             Node::DictBuilder {
@@ -238,9 +238,12 @@ impl From<(&Node, &Finished)> for NodeTy {
                 to,
                 conditions,
             } => NodeTy::DictBuilder {
-                from: Box::from(ASTTy::from(from)),
-                to: Box::from(ASTTy::from(to)),
-                conditions: conditions.iter().map(ASTTy::from).collect(),
+                from: Box::from(ASTTy::from((from, finished))),
+                to: Box::from(ASTTy::from((to, finished))),
+                conditions: conditions
+                    .iter()
+                    .map(|ast| ASTTy::from((ast, finished)))
+                    .collect(),
             },
             Node::Set { elements } => NodeTy::Set {
                 elements: elements
